@@ -80,6 +80,14 @@ class ShapeEval:
             if self.steps > 20000:
                 raise AnalysisError("shape evaluator: step limit")
             if isinstance(s, ast.Expr):
+                c = s.value
+                if isinstance(c, ast.Call) and isinstance(c.func, ast.Attribute) and isinstance(c.func.value, ast.Name) and \
+                        isinstance(env.get(c.func.value.id), list) and c.func.attr in ("append", "extend") and len(c.args) == 1:
+                    v = self.ev(c.args[0], env)
+                    if c.func.attr == "append":
+                        env[c.func.value.id].append(v)
+                    else:
+                        env[c.func.value.id].extend(v)
                 continue
             if isinstance(s, ast.Assert):
                 continue
